@@ -19,6 +19,8 @@ Mult(u) == CASE u = 0 -> 1 [] u = 1 -> 1 [] u = 2 -> 60 [] u = 3 -> 3600 [] u = 
 Retention(r) == LET prec == r[1] * Mult(r[2])
                 IN <<prec, IF r[4] = 0 THEN r[3] ELSE (r[3] * Mult(r[4])) \div prec>>
 
+Dot == 5        \* the code of '.' in the harness alphabet 'abcd.x'
+EqAny(lit, seg) == Len(lit) = Len(seg) /\ \A i \in 1..Len(lit) : lit[i] = Dot \/ lit[i] = seg[i]
 Occurs(lit, name) == \E i \in 0..(Len(name) - Len(lit)) : SubSeq(name, i + 1, i + Len(lit)) = lit
 PatMatches(p, name) ==
   CASE p.k = "sub" -> Occurs(p.lit, name)
@@ -28,6 +30,9 @@ PatMatches(p, name) ==
     \* '^lit?' / '^lit*': the last character of the literal is optional / repeatable - the name starts with the rest
     [] p.k \in {"prefixopt", "prefixstar"} -> Len(name) >= Len(p.lit) - 1 /\ SubSeq(name, 1, Len(p.lit) - 1) = SubSeq(p.lit, 1, Len(p.lit) - 1)
     [] p.k \in {"anystart", "anyopt", "anystar", "anylook"} -> TRUE     \* patterns every name matches, possibly with an empty match
+    \* '^a.b' / 'a.b' with the dot NOT escaped: a regular-expression dot, any one character
+    [] p.k = "prefixany" -> Len(name) >= Len(p.lit) /\ EqAny(p.lit, SubSeq(name, 1, Len(p.lit)))
+    [] p.k = "subany" -> \E i \in 0..(Len(name) - Len(p.lit)) : EqAny(p.lit, SubSeq(name, i + 1, i + Len(p.lit)))
     [] OTHER -> FALSE
 
 \* index of the first section that is usable and matches, 0 if none (the default applies)
